@@ -69,6 +69,25 @@ Theorem C08_gen_update_factor : forall (self : ktz) (k : nat) (data : vec), (k <
 Proof. exact gen_update_factor. Qed.
 Print Assumptions C08_gen_update_factor.
 
+(* ---- the repair b9311d6 over the generated text: pass 1 (H_needed) and the length test decide alone ---- *)
+Theorem C08_gen_update_pass2_total : forall (self : ktz) (modes data : vec) (n : Z),
+  H_needed self modes 0 = Ok n -> n <= zlen data -> exists st, H_update_loop data modes (self, 0) = Ok st.
+Proof. exact gen_update_pass2_total. Qed.
+Print Assumptions C08_gen_update_pass2_total.
+
+(* a rejected request is rejected before the first store (all stores of the generated text are in pass 2) *)
+Theorem C08_gen_update_rejected_before_store : forall (self : ktz) (modes data : vec),
+  ktensor_update self modes data = Err ->
+  asc modes = false \/ H_needed self modes 0 = Err \/ exists n, H_needed self modes 0 = Ok n /\ zlen data < n.
+Proof. exact gen_update_rejected_before_store. Qed.
+Print Assumptions C08_gen_update_rejected_before_store.
+
+Theorem C08_gen_update_ok_iff : forall (self : ktz) (modes data : vec),
+  (exists t, ktensor_update self modes data = Ok t) <->
+  asc modes = true /\ exists n, H_needed self modes 0 = Ok n /\ n <= zlen data.
+Proof. exact gen_update_ok_iff. Qed.
+Print Assumptions C08_gen_update_ok_iff.
+
 Example C08_gen_update_example :
   ktensor_update (mkkt [2; 3] [[[1; 4]; [2; 5]; [3; 6]]; [[7; 8]]]) [-1; 1] [10; 20; 30; 40] = Ok (mkkt [10; 20] [[[1; 4]; [2; 5]; [3; 6]]; [[30; 40]]]) /\
   ktensor_update (mkkt [2; 3] [[[1; 4]; [2; 5]; [3; 6]]; [[7; 8]]]) [0] [1; 2; 3; 4; 5; 6; 99] = Ok (mkkt [2; 3] [[[1; 4]; [2; 5]; [3; 6]]; [[7; 8]]]) /\
